@@ -24,6 +24,8 @@ def load_rules(path):
             r['bases']=[b['type']['qualType'] for b in rec.get('bases',[])]
             al=[c for c in rec.get('inner',[]) if c.get('kind')=='TypeAliasDecl' and c.get('name')=='type']
             r['alias']=al[0]['type']['qualType'] if al else None
+            # other member aliases of the record (helper names the `type` alias may refer to)
+            r['aliases']={c['name']:c['type']['qualType'] for c in rec.get('inner',[]) if c.get('kind')=='TypeAliasDecl' and c.get('name')!='type'}
             rules.setdefault(name,[]).append(r)
             if k=='ClassTemplateDecl':
                 for c in inner:
@@ -174,6 +176,8 @@ class Ev:
             for pc1,vals in alts: out+=s.apply(nm,vals,pc1)
             return out
         if k=='name':
+            al=env.get('@aliases') or {}
+            if node[1] in al: return s.ev(parse(al[node[1]]),env,pc)
             if s.norm(node[1])=='false_type': return [(pc,('bool',BoolVal(False)))]
             if s.norm(node[1])=='true_type': return [(pc,('bool',BoolVal(True)))]
         raise Exception(f'ev {node}')
@@ -399,6 +403,7 @@ class Ev:
         # most specialised: prefer the one with more non-pack params / fewer elements in packs (sufficient for these headers)
         cands.sort(key=lambda re: -sum(1 for _,p in re[0]['params'] if not p))
         r,env=cands[0]
+        if r.get('aliases'): env=dict(env); env['@aliases']=r['aliases']
         if r['alias']: return s.ev(parse(r['alias']),env,pc)
         return s.ev(parse(r['bases'][0]),env,pc)
 
